@@ -450,12 +450,14 @@ class ExprMixin(object):
     identity = isinstance(elt, ast.Name) and isinstance(g.target, ast.Name) and elt.id == g.target.id
     ln = fresh('complen', I)
     itf = ufn(fresh_name('compitem'), I, U)
-    r = ops.new_list_sym(st, ln, lambda i: itf(i), Ty('list' if kind == 'list' else 'vtuple', (ety if identity else ANY,)))
-    st.assume(ln >= 0)
     x = z3.Const(fresh_name('cx'), U)
     i = z3.Const(fresh_name('ci'), I)
     c2 = self.bind_target(g.target, from_u(x, ety, cx), cx)
     conds = z3.And([srcp(x)] + [truthy(self.sv(f, c2), c2) for f in g.ifs])
+    mp = (lambda e: z3.substitute(conds, (x, e))) if identity else None
+    r = ops.new_list_sym(st, ln, lambda i: itf(i), Ty('list' if kind == 'list' else 'vtuple', (ety if identity else ANY,)),
+                         mempred=mp)
+    st.assume(ln >= 0)
     if identity:
       wit = ufn(fresh_name('compidx'), U, I)
       st.assume(ForAllT([i], z3.Implies(z3.And(i >= 0, i < ln),
